@@ -328,6 +328,9 @@ def run(ctx):
     # answered with success or a specific error
     engine_check.scenario_run(ctx, "scen_engine.placeholder_follow_builder", MONITORS, nontrivial, RULE, 24, 400, 12,
                               "placeholder_follower_part", seed_base=830000)
+    # and [read / refused item; committing item] and [committing attribute operation; wrapped Get] batches of one session
+    engine_check.scenario_run(ctx, "scen_engine.read_commit_builder", MONITORS, nontrivial, RULE, 16, 300, 16,
+                              "read_then_commit_part", seed_base=840000)
     dom, outside = theorem_domain(ctx, grid)
     ctx.coverage["theorem_domain"] = dom
     ctx.coverage["items_outside_theorem_domain_samples"] = outside
